@@ -27,6 +27,7 @@
      event; timers = parked timer callbacks (kind 0 retry / 1 removal) ordered by deadline, kind, key, creation;
      relcode 1 parked before its section, 2 done, 3 parked after its section before Keyed.RemoveKey (never in the model). *)
 From Util Require Import Common.Base Common.ListLemmas Keyed.Model.
+From Util Require Backoff.Model.
 Open Scope N_scope.
 
 Definition n2n := N.to_nat.
@@ -597,5 +598,24 @@ Definition mon (m : option mst) (e o : list N) : option mst * list (nat * nat) :
     end
   end.
 
-Definition run_check_keyed (cfg : list N) (evs obss : list (list N)) : list issue :=
+Definition run_check_keyed0 (cfg : list N) (evs obss : list (list N)) : list issue :=
   run_check step_opt mon (hinit cfg) (minit cfg) evs obss.
+
+(* hasbo = 2: the Keyed is built with keyed.WithRetry(conf), conf being the backoff package's CONSTANT kind with interval
+   d ms (0 = unset: the package default): every record gets its own object from conf.Construct(); the script is computed
+   by the model of the backoff package (Backoff.Model), not supplied by the harness. *)
+Definition real_script_len : nat := 64.
+Definition expand (cfg : list N) : list N :=
+  match cfg with
+  | variant :: dl :: 2 :: d :: _ =>
+    match Backoff.Model.Construct {| Backoff.Model.c_kind := 2; Backoff.Model.c_init := 0; Backoff.Model.c_mult := 0;
+                                     Backoff.Model.c_max := 0; Backoff.Model.c_rf := 0; Backoff.Model.c_maxel := 0;
+                                     Backoff.Model.c_const := d |} with
+    | Some p => variant :: dl :: 1 :: Backoff.Model.bo_script p real_script_len
+    | None => cfg
+    end
+  | _ => cfg
+  end.
+
+Definition run_check_keyed (cfg : list N) (evs obss : list (list N)) : list issue :=
+  run_check_keyed0 (expand cfg) evs obss.
